@@ -63,6 +63,7 @@ UNITS = [
      ["RUN_MASK", "COUNT_MASK", "RLE_BUF_SIZE", "RLE_MIN_RUN", "RLE_MAX_RUN", "RLE_MIN_MIX", "RLE_NIL"], []),
     ("Atom", '#include "hdf_priv.h"\n#include "%s/atom.c"\n' % HS,
      ["GROUP_BITS", "GROUP_MASK", "ATOM_BITS", "ATOM_MASK", "ATOM_CACHE_SIZE", "MAXGROUP",
+      "DDGROUP", "AIDGROUP", "FIDGROUP", "VGIDGROUP", "VSIDGROUP", "GRIDGROUP", "RIIDGROUP", "BITIDGROUP", "ANIDGROUP",
       ("ATOM_T_BITS", "(sizeof(atom_t)*8)"),
       # C13 atom model: status codes, the invalid group, FAIL as an atom_t bit pattern, width of `unsigned` (nextid)
       "SUCCEED", "FAIL", "BADGROUP", ("FAIL_ATOM", "(uint32_t)(atom_t)FAIL"), ("UNSIGNED_BITS", "(sizeof(unsigned)*8)")],
@@ -152,6 +153,13 @@ UNITS = [
       "DFTAG_ID8", "DFTAG_IP8", "DFTAG_RI8", "DFTAG_CI8", "DFTAG_II8", "DFTAG_RLE", "DFTAG_IMC", "DFTAG_NULL",
       "DFNT_VERSION", "DFNT_UCHAR", "DFNTC_BYTE", "DFNT_NONE", "TBUF_SZ", "H4_MAX_VAR_DIMS",
       "DFIL_PIXEL", "DFIL_LINE", "DFIL_PLANE", "MFGR_INTERLACE_PIXEL"], []),
+    # C14 / C13 files: what hfile.c keeps private (default DD caching, the version record as HIupdate_version encodes it), SD id kinds
+    ("RO", '#include "hdf_priv.h"\n#include "%s/hfile.c"\n' % HS +
+     'static unsigned char *ro_verbytes(void) { static unsigned char b[LIBVER_LEN]; uint32 a, c, d; char s[LIBVSTR_LEN + 1]; uint8 *p = b; size_t n;\n'
+     '  Hgetlibversion(&a, &c, &d, s); UINT32ENCODE(p, a); UINT32ENCODE(p, c); UINT32ENCODE(p, d); HIstrncpy((char *)p, s, LIBVSTR_LEN); n = strlen((char *)p); memset(&p[n], 0, LIBVSTR_LEN - n); return b; }\n',
+     [("DEFAULT_CACHE", "default_cache"), "DFACC_CURRENT", "DDLIST_DIRTY", "FILE_END_DIRTY", "DFREF_NONE"],
+     [("HDFMAGIC_BYTES", "((unsigned char *)HDFMAGIC)", "MAGICLEN"), ("LIBVER_BYTES", "ro_verbytes()", "LIBVER_LEN")]),
+    ("Sdid", '#include "hdf_priv.h"\n#include "hfile_priv.h"\n', ["SDSTYPE", "DIMTYPE", "CDFTYPE", "H4_MAX_NC_OPEN", "MAX_NC_OPEN"], []),
     ("Bitvect", '#include "hdf_priv.h"\n#include "%s/bitvect.c"\n' % HS,
      ["BV_DEFAULT_BITS", "BV_CHUNK_SIZE", "BV_BASE_BITS"],
      [("bv_first_zero", "bv_first_zero", "256"), ("bv_bit_value", "bv_bit_value", "8"), ("bv_bit_mask", "bv_bit_mask", "9")]),
@@ -177,6 +185,35 @@ MACROS = [
     ("ATOM_TO_LOC", "hdf/src/atom.c", "ATOM_TO_LOC"),
     ("MAKE_ATOM", "hdf/src/atom.c", "MAKE_ATOM"),
     ("HASHKEY", "hdf/src/mcache_priv.h", "HASHKEY"),
+    ("BASETAG", "hdf/src/hfile_priv.h", "BASETAG"),
+    ("SPECIALTAG", "hdf/src/hfile_priv.h", "SPECIALTAG"),
+    ("MKSPECIALTAG", "hdf/src/hfile_priv.h", "MKSPECIALTAG"),
+]
+
+# expressions translated from STATEMENTS of the source text (C13 SD ids): (lean name, file, function, regex of the statement
+# with one group = the right-hand side, parameter names).  The function body is located first, the statement must occur
+# exactly once in it.  The right-hand side goes through the same translator as the macros; the value is reduced mod 2^32
+# (ids are carried as uint32 bit patterns).
+EXPRS = [
+    ("SDSTART_ID", "mfhdf/src/mfsd.c", "SDstart", r"\bfid\s*=\s*([^;]*<<[^;]*);", ["cdfid"]),
+    ("SDSELECT_ID", "mfhdf/src/mfsd.c", "SDselect", r"\bsdsid\s*=\s*([^;]*<<[^;]*);", ["fid", "index"]),
+    ("SDCREATE_ID_BASE", "mfhdf/src/mfsd.c", "SDcreate", r"\bsdsid\s*=\s*([^;]*<<[^;]*);", ["fid"]),
+    ("SDGETDIMID_ID", "mfhdf/src/mfsd.c", "SDgetdimid", r"\bid\s*=\s*([^;]*<<[^;]*);", ["sdsid", "dimindex"]),
+    ("SDID_KIND", "mfhdf/src/mfsd.c", "SDIhandle_from_id", r"\btmp\s*=\s*(\(id >> 16\)[^;]*);", ["id"]),
+    ("SDID_SLOT", "mfhdf/src/mfsd.c", "SDIhandle_from_id", r"\btmp\s*=\s*(\(id >> 20\)[^;]*);", ["id"]),
+    ("SDID_VARINDEX", "mfhdf/src/mfsd.c", "SDIget_var", r"\bvarid\s*=\s*([^;]*&[^;]*);", ["sdsid"]),
+    ("SDID_DIMINDEX", "mfhdf/src/mfsd.c", "SDIget_dim", r"\bdimindex\s*=\s*([^;]*&[^;]*);", ["id"]),
+    ("SDEND_CDFID", "mfhdf/src/mfsd.c", "SDend", r"\bcdfid\s*=\s*([^;]*&[^;]*);", ["id"]),
+]
+
+# access-control facts read from the TEXT of the functions (C14): does the function body test DFACC_WRITE?
+# (lean name, file, function, regex that must match inside the body for the flag to be true)
+FLAGS = [
+    ("HDELDD_CHECKS_ACCESS", "hdf/src/hfiledd.c", "Hdeldd", r"!\s*\(\s*file_rec->access\s*&\s*DFACC_WRITE\s*\)"),
+    ("HDUPDD_CHECKS_ACCESS", "hdf/src/hfiledd.c", "Hdupdd", r"!\s*\(\s*file_rec->access\s*&\s*DFACC_WRITE\s*\)"),
+    ("HDREUSE_CHECKS_ACCESS", "hdf/src/hfiledd.c", "HDreuse_tagref", r"!\s*\(\s*file_rec->access\s*&\s*DFACC_WRITE\s*\)"),
+    ("HSETLENGTH_CHECKS_ACCESS", "hdf/src/hfile.c", "Hsetlength", r"!\s*\(\s*access_rec->access\s*&\s*DFACC_WRITE\s*\)"),
+    ("HOPEN_REOPEN_SETS_ACCESS", "hdf/src/hfile.c", "Hopen", r"file_rec->file\s*=\s*f;[^}]*file_rec->access\s*(\|=|=)[^;]*DFACC_WRITE|file_rec->access\s*(\|=|=)[^;}]*(DFACC_WRITE|acc_mode)[^}]*file_rec->file\s*=\s*f;"),
 ]
 
 
@@ -275,16 +312,22 @@ def gen_unit(name, prologue, consts, tables, tmp):
 
 
 # ---------------------------------------------------------------------------- macro translator
-TOK = re.compile(r"\s*(0[xX][0-9a-fA-F]+|\d+|[A-Za-z_]\w*|<<|>>|[()&|^+\-*/%~,?:])")
-CASTS = {"uint16": 16, "uint8": 8, "uint32": 32, "int32": 32, "int16": 16, "uint16_t": 16, "uint32_t": 32, "int32_t": 32,
+TOK = re.compile(r"\s*(0[xX][0-9a-fA-F]+|\d+|[A-Za-z_]\w*|<<|>>|&&|\|\||[()&|^+\-*/%~,?:])")
+CASTS = {"int": 32, "unsigned": 32, "uint16": 16, "uint8": 8, "uint32": 32, "int32": 32, "int16": 16, "uint16_t": 16, "uint32_t": 32, "int32_t": 32,
          "atom_t": 32, "group_t": 32}
 
 
 def macro_text(path, name):
     txt = open(os.path.join(repo, path)).read().replace("\\\n", " ")
-    m = re.search(r"^[ \t]*#[ \t]*define[ \t]+%s\(([^)]*)\)[ \t]+(.*)$" % re.escape(name), txt, re.M)
-    if not m:
+    ms = list(re.finditer(r"^[ \t]*#[ \t]*define[ \t]+%s\(([^)]*)\)[ \t]+(.*)$" % re.escape(name), txt, re.M))
+    if not ms:
         fail("macro %s not found in %s" % (name, path))
+    # several definitions (#ifdef variants): take the one that is not a plain function call wrapper
+    m = ms[0]
+    for cand in ms:
+        if not re.match(r"^\(?\s*HD\w+\(", cand.group(2).strip()):
+            m = cand
+            break
     params = [p.strip() for p in m.group(1).split(",")]
     body = re.sub(r"/\*.*?\*/", "", m.group(2)).strip()
     return params, body
@@ -316,6 +359,33 @@ class P:
         self.i += 1
         return x
 
+    def cond(self):
+        """conditional expression  c ? a : b   and the logical operators && || (value 1/0), lowest precedence"""
+        c = self.lor()
+        if self.peek() == "?":
+            self.eat()
+            a = self.cond()
+            self.eat(":")
+            b = self.cond()
+            return "(if %s != 0 then %s else %s)" % (c, a, b)
+        return c
+
+    def lor(self):
+        lhs = self.land()
+        while self.peek() == "||":
+            self.eat()
+            rhs = self.land()
+            lhs = "(if %s != 0 || %s != 0 then 1 else 0)" % (lhs, rhs)
+        return lhs
+
+    def land(self):
+        lhs = self.expr()
+        while self.peek() == "&&":
+            self.eat()
+            rhs = self.expr()
+            lhs = "(if %s != 0 && %s != 0 then 1 else 0)" % (lhs, rhs)
+        return lhs
+
     def expr(self, minp=0):
         lhs = self.unary()
         while True:
@@ -345,7 +415,7 @@ class P:
                 self.eat(")")
                 inner = self.unary()
                 return "(%s %% %d)" % (inner, 2 ** w)
-            e = self.expr()
+            e = self.cond()
             self.eat(")")
             return e
         self.eat()
@@ -383,12 +453,83 @@ def gen_textconsts(tmp):
                      "SD_UNLIMITED", "NN_MODE", "EC_MODE"] + exprs, [], tmp)
 
 
+def gen_textconsts(tmp):
+    exprs = []
+    for ln, path, rx in TEXTCONSTS:
+        txt = open(os.path.join(repo, path)).read()
+        ms = re.findall(rx, txt)
+        if len(set(ms)) != 1:
+            fail("text constant %s: pattern %r matches %d different texts in %s" % (ln, rx, len(set(ms)), path))
+        exprs.append((ln, ms[0]))
+    return gen_unit("Tools", '#include "hdf.h"\n#include "mfhdf.h"\n#include "hrepack.h"\n',
+                    ["COMP_CODE_NONE", "COMP_CODE_RLE", "COMP_CODE_NBIT", "COMP_CODE_SKPHUFF", "COMP_CODE_DEFLATE", "COMP_CODE_SZIP",
+                     "COMP_CODE_INVALID", "COMP_CODE_JPEG", "HDF_NONE", "HDF_CHUNK", "HDF_COMP", "HDF_NBIT", "H4_MAX_NC_NAME", "H4_MAX_VAR_DIMS",
+                     "SD_UNLIMITED", "NN_MODE", "EC_MODE"] + exprs, [], tmp)
+
+
+def function_body(path, fn):
+    """text of the body of the function `fn` (definition at the start of a line, K&R-style return type on the line before)"""
+    txt = open(os.path.join(repo, path)).read()
+    m = re.search(r"^%s\s*\(" % re.escape(fn), txt, re.M)
+    if not m:
+        fail("function %s not found in %s" % (fn, path))
+    i = txt.index("{", m.end())
+    depth, j = 0, i
+    while j < len(txt):
+        if txt[j] == "{":
+            depth += 1
+        elif txt[j] == "}":
+            depth -= 1
+            if depth == 0:
+                break
+        j += 1
+    body = txt[i:j + 1]
+    body = re.sub(r"/\*.*?\*/", " ", body, flags=re.S)
+    return body
+
+
+# facts read from the text of a whole file: (lean name, file, regex)
+TEXTFLAGS = [
+    # C13: the H layer resolves a file / access id only if the id is of that group (typed resolvers next to BADFREC)
+    ("H_CHECKS_ID_KIND", "hdf/src/hfile_priv.h", r"#\s*define\s+HIfid2rec\(id\)[^\n]*HAatom_group\(id\)\s*==\s*FIDGROUP[\s\S]*#\s*define\s+HIaid2rec\(id\)[^\n]*HAatom_group\(id\)\s*==\s*AIDGROUP"),
+]
+
+
+def gen_flags_exprs(known):
+    out = ["/- GENERATED by /verif/gen/gen.py (Tie A): facts and expressions read from function bodies. Do not edit. -/\n", "namespace H4.Gen.Src\n\n"]
+    for ln, path, rx in TEXTFLAGS:
+        txt = open(os.path.join(repo, path)).read()
+        val = re.search(rx, txt) is not None
+        out.append("/-- `%s` %s the definition looked for -/\n" % (path, "contains" if val else "does NOT contain"))
+        out.append("def %s : Bool := %s\n\n" % (ln, "true" if val else "false"))
+    for ln, path, fn, rx in FLAGS:
+        body = function_body(path, fn)
+        val = re.search(rx, body, re.S) is not None
+        out.append("/-- the body of `%s` (%s) %s the access test -/\n" % (fn, path, "contains" if val else "does NOT contain"))
+        out.append("def %s : Bool := %s\n\n" % (ln, "true" if val else "false"))
+    for ln, path, fn, rx, params in EXPRS:
+        body = function_body(path, fn)
+        ms = re.findall(rx, body)
+        ms = [m if isinstance(m, str) else m[0] for m in ms]
+        if len(ms) != 1:
+            fail("expression %s: %d statements match in %s (%s)" % (ln, len(ms), fn, path))
+        rhs = " ".join(ms[0].split())
+        pp = P(rhs, params, known)
+        e = pp.cond()
+        if pp.peek() is not None:
+            fail("expression %s: trailing tokens %r" % (ln, pp.toks[pp.i:]))
+        out.append("/-- `%s`: `%s` -/\n" % (fn, rhs))
+        out.append("def %s %s : Nat := %s %% 4294967296\n\n" % (ln, " ".join("(%s : Nat)" % q for q in params), e))
+    out.append("end H4.Gen.Src\n")
+    return "".join(out)
+
+
 def gen_macros(known):
     out = ["/- GENERATED by /verif/gen/gen.py (Tie A, macro translator). Do not edit. -/\n", "namespace H4.Gen.Macros\n\n"]
     for ln, path, name in MACROS:
         params, body = macro_text(path, name)
         p = P(body, params, known)
-        e = p.expr()
+        e = p.cond()
         if p.peek() is not None:
             fail("macro %s: trailing tokens %r" % (name, p.toks[p.i:]))
         out.append("/-- `%s(%s)` = `%s` -/\n" % (name, ",".join(params), body))
@@ -409,7 +550,9 @@ def main():
             files[name + ".lean"] = txt
         files["Conv.lean"] = gen_conv(tmp)
         files["Tools.lean"] = gen_textconsts(tmp)
+        files["Tools.lean"] = gen_textconsts(tmp)
     files["Macros.lean"] = gen_macros(known)
+    files["Src.lean"] = gen_flags_exprs(known)
     digest = {}
     for fn, txt in files.items():
         p = os.path.join(outdir, fn)
